@@ -1,5 +1,6 @@
 """C05 - operations on quantized tensors equal the operations on dequantized values (structural clauses)."""
 from .. import handrules
+from ..core import AnalysisError
 from ..registries import handlers, register_functions
 
 TITLE = "Operations on quantized tensors equal the same operations on dequantized values"
@@ -17,6 +18,7 @@ RULES = {
     "C05.R10": "re-quantizing handlers compute on dequantized values and re-quantize with the operand qtype and documented scale",
     "C05.R12": "scale positivity: a handler that rescales by a scalar preserves the sign of the scale whenever another handler works on raw payloads assuming a positive scale",
     "C05.R13": "guard helpers mean what the rules assume: is_scalar = python number or plain 0-dim tensor; cannot_mm = grouped payload",
+    "C05.R15": "contractions: the default kernel behind mm/bmm/linear multiplies raw codes in float32 for every 8-bit operand pair with half-precision scales (error stays within one float accumulation, no intermediate overflow)",
     "C05.R14": "contractions (mm/bmm handlers): the raw-code route is well-typed for every combination of per-tensor / per-axis operands that reaches it: each scale lines up with a kept dimension of the output and is applied exactly once",
     "C05.R11": "rank beliefs (fixed-size unpacking of size()) are implied by the aten schema or an ndim guard",
 }
@@ -63,6 +65,10 @@ def run(chk):
     handrules.emit(chk, recs, "C05")
     from . import c07
     c07.mm_handlers(chk, r1="C05.R14", r2="C05.R14", r5="C05.R14")
+    try:
+        c07.accumulation(chk, {"qbytes_mm": repo.func("qbytes_mm")}, rule="C05.R15")
+    except AnalysisError:
+        chk.unknown("C05.R15", "library/qbytes_mm.py", "default qbytes_mm not found")
     chk.sample({"handlers": [h.name for h in hs["qbytes"]]})
     chk.assume(
         "aten schemas (operand roles) and algebraic classes of aten ops are a table in qv/hand.py and qv/kinds.py",
